@@ -219,7 +219,10 @@ func (h *FBDNSDB) ServeDNSWithRCODE(ctx context.Context, w dns.ResponseWriter, r
 	}
 
 	if h.cacheConfig.Enabled {
-		cacheKey = fmt.Sprintf("%.3d%.3d%.3d%s", loc.LocID, state.QType(), state.QClass(), state.Name())
+		// fixed-width fields: a 16-bit type or class takes up to 5 digits, with a
+		// shorter field (type 12345, class 678) and (type 123, class 45678) would
+		// share one key
+		cacheKey = fmt.Sprintf("%.3d%.5d%.5d%s", loc.LocID, state.QType(), state.QClass(), state.Name())
 		if v, ok := h.lru.Get(cacheKey); ok {
 			t := v.(cacheEntry).expiration
 			if t < time.Now().Unix() {
